@@ -270,6 +270,7 @@ class PyQuoter:
             raise AnalysisError(f"{self.QUAL}:{e.node.lineno}: unclassifiable emission {cons}")
         self._window_invariant()
         self._progress()
+        self._rewind()
         self._returns()
 
     def current_unit(self, state):
@@ -396,6 +397,45 @@ class PyQuoter:
                 ctx.ob(rule, self.QUAL, f"loop iteration under [{facts}]", emitted or buffered,
                        "an iteration of the scanning loop consumes an input byte without emitting or buffering it",
                        where(self.fi, r.loops[lid]), sample="output or window extended")
+
+    def _rewind(self):
+        """Position accounting of the scanner: an iteration advances the index by one; when a malformed escape is flushed
+        as '%25' (only the '%' is consumed) the index is moved back to the byte after the '%', i.e. by len(window) - 1."""
+        from .unquoters import lin
+        ctx, r = self.ctx, self.r
+        rule = "EM-PYQ-REWIND"
+        ctx.rule(rule, floor=3, what="scanner position accounting: +1 per iteration, back to the byte after '%' when a malformed escape is flushed")
+        if not self.idx_name:
+            raise AnalysisError(f"{self.QUAL}: scan index not identified")
+        groups = {}
+        for lid in self.loops:
+            phi = ("phi", lid, self.idx_name)
+            for s in r.backedges.get(lid, []):
+                base, off = lin(s.env.get(self.idx_name, phi))
+                win = s.env.get(self.win) if self.win else None
+                acc = s.env.get(self.acc)
+                flushed = acc is not None and acc[0] == "mut" and acc[2] == "extend" and acc[3] == (("const", b"%25"),) \
+                    and win is not None and win[0] == "mut" and win[2] == "clear"
+                want = 1
+                why = "advance by one"
+                if flushed:
+                    w0 = win[1]
+                    n = None
+                    for k, v in s.facts.items():
+                        if v and k[0] == "cmp" and k[1] == "Eq" and k[2] == ("call", ("builtin", "len"), (w0,), ()) and k[3][0] == "const":
+                            n = k[3][1]
+                    if n is None:
+                        groups.setdefault("flush without a known window length", []).append(False)
+                        continue
+                    want = 1 - (n - 1)
+                    why = f"window of {n} flushed as %25: back to the byte after '%'"
+                ok = base == phi and off == want
+                groups.setdefault(why, []).append(ok)
+        for why, oks in groups.items():
+            ctx.instance(rule)
+            ctx.ob(rule, self.QUAL, why, all(oks),
+                   "the scan index is not where the consumed/emitted bytes say it should be: input bytes would be skipped or "
+                   "scanned twice", where(self.fi, self.fi.node), sample=f"{len(oks)} iteration path(s)")
 
     def _returns(self):
         ctx, r = self.ctx, self.r
